@@ -12,17 +12,44 @@
    and the methods the harness writes look at the FIRST field only (so that their answer differs
    from structural equality and a dispatch that ignores them is visible):
        func (a T) Equal(b T) bool { return a.F0 == b.F0 }
-       func (a *T) Equal(b *T) bool { if a == nil || b == nil { return a == nil && b == nil }; return a.F0 == b.F0 } *)
+       func (a *T) Equal(b *T) bool { if a == nil || b == nil { return a == nil && b == nil }; return a.F0 == b.F0 }
+
+   A further class (C13): methods whose Compare returns a MAGNITUDE, not -1/0/+1, and whose
+   order is not the field-by-field order: the first field F0 is an insignificant label, the
+   SECOND field F1 (a small integer type, so that the difference cannot overflow int) decides:
+                              300..349  value receiver/parameter
+                              350..399  pointer receiver/parameter
+       func (a T) Equal(b T) bool  { return a.F1 == b.F1 }
+       func (a T) Compare(b T) int { return int(a.F1) - int(b.F1) }
+       func (a *T) Compare(b *T) int { <nil first, as above>; return int(a.F1) - int(b.F1) } *)
 From Verif Require Import Go.Ty Go.Val Go.Equal Go.Compare.
 Open Scope Z_scope.
 
+(* one pass over the (unary) id: id / 50 is 2, 3 for 100..199; 4, 5 for 200..299; 6 for 300..349;
+   7 for 350..399 (the evaluator asks at every named node of every comparison) *)
 Definition meth_kind (id : nat) : option bool :=      (* Some ptr_param *)
-  if (100 <=? id)%nat && (id <? 200)%nat then Some false
-  else if (200 <=? id)%nat && (id <? 300)%nat then Some true
-  else None.
+  match Nat.div id 50 with
+  | 2%nat | 3%nat => Some false
+  | 4%nat | 5%nat => Some true
+  | 6%nat => Some false
+  | 7%nat => Some true
+  | _ => None
+  end.
+
+(* the magnitude class: the methods look at the second field and Compare returns a difference *)
+Definition meth_mag (id : nat) : bool :=
+  match Nat.div id 50 with 6%nat | 7%nat => true | _ => false end.
+
+Example meth_kind_bounds :
+  map meth_kind [99; 100; 199; 200; 299; 300; 349; 350; 399; 400]%nat
+  = [None; Some false; Some false; Some true; Some true; Some false; Some false; Some true; Some true; None] /\
+  map meth_mag [299; 300; 399; 400]%nat = [false; true; true; false].
+Proof. split; reflexivity. Qed.
 
 Definition r_meth (r : resolved) : option bool :=
   match r_named r with Some (id, _) => meth_kind id | None => None end.
+Definition r_mag (r : resolved) : bool :=
+  match r_named r with Some (id, _) => meth_mag id | None => false end.
 
 Fixpoint method_free (t : ty) : bool :=
   match t with
@@ -85,8 +112,40 @@ Definition first_cmp_ptr (x y : val) : res Z :=
   | _, _ => Stuck
   end.
 
+(* the methods of the magnitude class (ids 300..399) *)
+Definition second_eq (x y : val) : res bool :=
+  match x, y with
+  | VSt (_ :: a :: _), VSt (_ :: b :: _) => Ok (go_eqeq a b)
+  | _, _ => Stuck
+  end.
+Definition second_eq_ptr (x y : val) : res bool :=
+  match x, y with
+  | VNilP, VNilP => Ok true
+  | VNilP, VPtr _ _ | VPtr _ _, VNilP => Ok false
+  | VPtr _ a, VPtr _ b => second_eq a b
+  | _, _ => Stuck
+  end.
+Definition second_mag (x y : val) : res Z :=
+  match x, y with
+  | VSt (_ :: VInt a :: _), VSt (_ :: VInt b :: _) => Ok (a - b)
+  | _, _ => Stuck
+  end.
+Definition second_mag_ptr (x y : val) : res Z :=
+  match x, y with
+  | VNilP, VNilP => Ok 0
+  | VNilP, VPtr _ _ => Ok (-1)
+  | VPtr _ _, VNilP => Ok 1
+  | VPtr _ a, VPtr _ b => second_mag a b
+  | _, _ => Stuck
+  end.
+(* the user's method of a named type, by class *)
+Definition meth_eq (mag : bool) := if mag then second_eq else first_eq.
+Definition meth_eq_ptr (mag : bool) := if mag then second_eq_ptr else first_eq_ptr.
+Definition meth_cmp (mag : bool) := if mag then second_mag else first_cmp.
+Definition meth_cmp_ptr (mag : bool) := if mag then second_mag_ptr else first_cmp_ptr.
+
 (* ---------- Equal with method dispatch ---------- *)
-Inductive mstrat := MPlain (s : strat) | MMeth | MMethPtr.
+Inductive mstrat := MPlain (s : strat) | MMeth | MMethPtr | MMethMag | MMethPtrMag.
 
 (* canEqual of plugin/equal since the fix "a type with its own Equal method is not compared with ==":
    a type that is, or contains by value (array element, struct field), a named type with an Equal
@@ -151,12 +210,12 @@ Definition strategy_mg (ce : ty -> bool) (e : tenv) (m : mode) (t : ty) : mstrat
   | None => MPlain SStuck
   | Some r =>
       match r_meth r, m, r_node r with
-      | Some _, Fld, _ => MMeth
-      | Some _, Top, TSt _ => MMeth
+      | Some _, Fld, _ => if r_mag r then MMethMag else MMeth
+      | Some _, Top, TSt _ => if r_mag r then MMethMag else MMeth
       | _, Fld, TP rt =>
           match resolve (r_env r) rt with
           | Some rr => match r_meth rr with
-                       | Some true => MMethPtr
+                       | Some true => if r_mag rr then MMethPtrMag else MMethPtr
                        | Some false => MPlain (SPtrInline (r_env r) rt)   (* falls through to the dereference *)
                        | None => MPlain (strategy_g ce e m t)
                        end
@@ -170,6 +229,8 @@ Fixpoint eqm_mg (ce : ty -> bool) (e : tenv) (m : mode) (t : ty) (x y : val) {st
   match strategy_mg ce e m t with
   | MMeth => first_eq x y
   | MMethPtr => first_eq_ptr x y
+  | MMethMag => second_eq x y
+  | MMethPtrMag => second_eq_ptr x y
   | MPlain s =>
   match s with
   | SEqEq => Ok (go_eqeq x y)
@@ -235,6 +296,16 @@ Definition eqm_m_old := eqm_mg can_equal_old.
 
 
 (* ---------- Compare with method dispatch (plugin/compare field) ---------- *)
+(* [entries_c] of Go/Compare.v with the comparison of two different keys as a closure too *)
+Fixpoint entries_cm (xe : list (val * ((val -> res Z) * (val -> res Z)))) (ye : list (val * val)) : res Z :=
+  match xe, ye with
+  | [], [] => Ok 0
+  | (kx, (cx, ck)) :: xe', (ky, vy) :: ye' =>
+      rdo c <- (if go_eqeq kx ky then cx vy else ck ky);
+      if Z.eqb c 0 then entries_cm xe' ye' else Ok c
+  | _, _ => Stuck
+  end.
+
 Fixpoint cmpm_m (top : bool) (e : tenv) (t : ty) (x y : val) {struct x} : res Z :=
   match resolve e t with
   | None => Stuck
@@ -244,8 +315,8 @@ Fixpoint cmpm_m (top : bool) (e : tenv) (t : ty) (x y : val) {struct x} : res Z 
          struct is compared through field(&this, &that, *T), which uses a pointer-parameter method
          but generates the field-wise helper when the method takes a value *)
       match r_meth r, top with
-      | Some _, false => first_cmp x y                 (* field: this.F.Compare(that.F) / (&that.F) *)
-      | Some true, true => if is_struct (r_node r) then first_cmp x y   (* (&this).Compare(&that) *)
+      | Some _, false => meth_cmp (r_mag r) x y        (* field: this.F.Compare(that.F) / (&that.F) *)
+      | Some true, true => if is_struct (r_node r) then meth_cmp (r_mag r) x y   (* (&this).Compare(&that) *)
                            else Stuck
       | _, _ =>
       match r_node r with
@@ -255,7 +326,7 @@ Fixpoint cmpm_m (top : bool) (e : tenv) (t : ty) (x y : val) {struct x} : res Z 
           | None => Stuck
           | Some rr =>
               match r_meth rr, top with
-              | Some true, false => first_cmp_ptr x y            (* this.F.Compare(that.F) *)
+              | Some true, false => meth_cmp_ptr (r_mag rr) x y  (* this.F.Compare(that.F) *)
               | _, _ =>
                 match x, y with
                 | VNilP, VNilP => Ok 0
@@ -307,9 +378,17 @@ Fixpoint cmpm_m (top : bool) (e : tenv) (t : ty) (x y : val) {struct x} : res Z 
               if negb (Nat.eqb (List.length xm) (List.length ym))
               then Ok (if Nat.ltb (List.length xm) (List.length ym) then -1 else 1)
               else if negb (key_sup kt) then Unsup
-              else
+              else if method_free kt then
                 let xe := map (fun kv => (fst kv, fun vy => cmpm_m false e' vt (snd kv) vy)) xm in
                 entries_c (sort_by fst xe) (sort_by fst ym)
+              else
+                (* a key type with a Compare method: keys that are not == are compared by
+                   field(thiskey, thatkey, K), i.e. by the method; the key lists are sorted by
+                   deriveSort([]K), i.e. by deriveCompare(K, K), which for a comparable K with a
+                   value-parameter method is the field-wise helper (= cmp_val) *)
+                let xe := map (fun kv => (fst kv, (fun vy => cmpm_m false e' vt (snd kv) vy,
+                                                   fun ky => cmpm_m false e' kt (fst kv) ky))) xm in
+                entries_cm (sort_by fst xe) (sort_by fst ym)
           | _, _ => Stuck
           end
       | _ => Stuck
